@@ -24,6 +24,7 @@ package c17
 
 import (
 	"fmt"
+	"os"
 	"sort"
 	"strconv"
 	"strings"
@@ -542,6 +543,9 @@ func twinLabels(w *workload, v *verdict) []string {
 func addTwins(t *rapid.T, w *workload, slowLo, slowHi, lateUs int) {
 	// rapid's integer draws favour small values: most cases carry at least one group
 	ng := []int{1, 2, 0, 3, 1, 0}[rapid.IntRange(0, 5).Draw(t, "identicalPayloadGroups")]
+	if os.Getenv("VERIF_C17_NO_IDENTICAL") != "" { // A/B runs only (what does the dimension change in the other statistics?)
+		ng = 0
+	}
 	for g := 1; g <= ng; g++ {
 		lb := fmt.Sprintf("same%d.", g)
 		shape := rapid.IntRange(0, 2).Draw(t, lb+"shape") // 0 different peers, 1 same peer, 2 free
